@@ -212,3 +212,38 @@ def replay_case(case, which):
     else:
         run_history(case, rec, which)
     return [(v['bucket'], v['detail']) for v in rec.violations]
+
+
+def fuzz(ctx, which, seconds):
+    """supplementary coverage-guided campaign (atheris / libFuzzer) on mesh histories; the oracle is inside the target.
+    Skipped (and recorded) when atheris is not importable."""
+    import json
+    import os
+    import subprocess
+    import sys
+    from vlib.common import VERIF
+    rec = ctx.rec
+    deps = os.path.join(VERIF, '.deps')
+    if not os.path.isdir(os.path.join(deps, 'atheris')):
+        rec.add('atheris_unavailable')
+        return
+    work = os.path.join(os.environ.get('VERIF_WORK') or os.path.join(VERIF, '.work', 'fuzz.%d' % os.getpid()), 'fuzz')
+    os.makedirs(os.path.join(work, 'corpus'), exist_ok=True)
+    out = os.path.join(work, 'out.json')
+    env = dict(os.environ, PYTHONPATH=VERIF, FUZZ_WHICH=which)
+    cmd = [sys.executable, '-m', 'vlib.fuzz_mesh', out, '-max_total_time=%d' % seconds, '-seed=%d' % (ctx.seed or 1),
+           '-max_len=160', '-artifact_prefix=%s/' % work, '-print_final_stats=0', os.path.join(work, 'corpus')]
+    p = subprocess.run(cmd, cwd=VERIF, env=env, stdout=subprocess.PIPE, stderr=subprocess.STDOUT, timeout=seconds + 600)
+    stats = {}
+    if os.path.exists(out + '.stats'):
+        stats = json.load(open(out + '.stats'))
+    rec.add('fuzz_executions', int(stats.get('execs', 0)))
+    rec.add('fuzz_operations', int(stats.get('ops', 0)))
+    rec.case(int(stats.get('execs', 0)))
+    if os.path.exists(out):
+        v = json.load(open(out))
+        rec.violation(v['bucket'] + '/found_by_fuzzer', v['detail'], v['case'])
+    elif p.returncode != 0:
+        tail = p.stdout.decode(errors='replace')[-800:]
+        if 'Found' not in tail:
+            raise RuntimeError('fuzz driver failed:\n' + tail)
